@@ -47,8 +47,9 @@ BAD_RETURNS = {"set": lambda: {1, 2}, "bytes": lambda: b"\x00\xff", "object": ob
 
 class World:
     def __init__(self, loop, kind: str = "mem", *, latency=None, seed: int = 0, converter: str = "basic",
-                 args_bucket: bool = True, result_bucket: bool = True, bucket_kind=None, amqp_opts=None):
+                 args_bucket: bool = True, result_bucket: bool = True, bucket_kind=None, amqp_opts=None, magic: bool = False):
         self.loop = loop
+        self.magic = magic  # jobs and workers find the connection by themselves (Repid(...).magic_connect()) instead of being given it
         self.kind = kind
         self.rig = Rig(kind, loop, latency=latency, seed=seed, amqp_opts=amqp_opts)
         self.log = self.rig.log
@@ -63,11 +64,20 @@ class World:
         self.stale_deps = []
 
     async def open(self):
-        await self.conn.connect()
+        if self.magic:
+            from repid import Repid
+
+            self.app = Repid(self.conn)
+            await self.app.magic_connect()
+        else:
+            await self.conn.connect()
 
     async def close(self):
         try:
-            await asyncio.wait_for(self.conn.disconnect(), 30)
+            if self.magic:
+                await asyncio.wait_for(self.app.magic_disconnect(), 30)
+            else:
+                await asyncio.wait_for(self.conn.disconnect(), 30)
         except Exception:  # noqa: BLE001
             pass
         self.rig.close()
@@ -216,13 +226,16 @@ class World:
         # explicit ids everywhere: uuid4 defaults would make runs irreproducible (hash order, store-call order)
         kw.setdefault("args_id", f"args-{id_}")
         kw.setdefault("result_id", f"res-{id_}")
+        if self.magic:
+            return Job(name, id_=id_, args=args, **kw)
         return Job(name, id_=id_, args=args, _connection=self.conn, **kw)
 
     def worker(self, routers, **kw):
         from repid import Worker
 
         kw.setdefault("handle_signals", [])
-        kw.setdefault("_connection", self.conn)
+        if not self.magic:
+            kw.setdefault("_connection", self.conn)
         return Worker(routers=routers, **kw)
 
     # ---- log queries
